@@ -317,7 +317,32 @@ fn random_history(t: &mut Tape, gates: &Gates) -> Vec<Note> {
                 let bytes: Vec<u8> = (0..160).map(|_| t.byte()).collect();
                 crate::lexeme::layout(&lex, &o, &mut Tape::new(&bytes)).0.text
             };
-            let text = if t.ratio(1, 4) {
+            let text = if t.ratio(1, 6) {
+                // TWO faults of (mostly) different rules in one document: rules report in their own
+                // order, not in text order - every diagnostic still carries its own position
+                let mut parts = vec![];
+                for (k, tag) in ["", "x"].iter().enumerate() {
+                    let kd = ALL_FAULTS[t.below(ALL_FAULTS.len())];
+                    let mut big = Profile::default();
+                    big.prefix = format!("{}{}", p.prefix, tag);
+                    big.max_progs = 1;
+                    big.sfc = false;
+                    big.config = false;
+                    let mut key = sub.clone();
+                    key.push(k as u8);
+                    if let Some(fu) = unit_with_fault_of(kd, &key, gates, &big) {
+                        parts.push(spell(&fu, t));
+                    }
+                }
+                if parts.is_empty() {
+                    spell(&unit, t)
+                } else {
+                    if t.flag() {
+                        parts.reverse();
+                    }
+                    parts.concat()
+                }
+            } else if t.ratio(1, 4) {
                 // a fault of a kind chosen uniformly over all rules, from a unit large enough for it
                 let kd = ALL_FAULTS[t.below(ALL_FAULTS.len())];
                 let mut big = Profile::default();
